@@ -31,10 +31,14 @@ TRUSTED = [
     "Drillhole.create / add_data validation outside the driven regime",
     "tools/props/c04.py (generator, driver incl. the uuid -> small number map, canonicalisation, oracle and its ledger)",
     "DrillholesGroupTable.depth_table is checked by the oracle only (the Coq theorem C04_table_view is about the index it reads)",
-    "copy of holes / groups is not driven (neither modelled nor checked)",
+    "cross-workspace group copies are driven (copy, edit the copy, re-read the source; model: the copy starts from the source's state, "
+    "the source stays what it was); copies of single holes and masked copies are not",
+    "element types of the in-memory arrays (int32 / float / <Uw text) are modelled separately (Model/ConcatDtype.v: hstack promotion "
+    "never changes a value); the tie is the correspondence on text, int32 and half-valued float inputs",
 ]
 ASSUMPTIONS = [
-    "values are small integers (exact as float32) or NaN (user no-data samples and padding written by the library)",
+    "values are small integers or halves (exact as float32), lower-case words for text data, or no-data (NaN / '')",
+    "one value kind per data name: d0, d1 floats, d2 text, d3 int32 or float as handed in by each hole",
     "depth tables only (no from-to intervals); property groups are addressed by name; depth arrays of different groups of one hole "
     "lie on disjoint integer ranges (so collocation matching only ever matches a group with itself or two empty depth arrays)",
     "data names d<j> and DEPTH/DEPTH(k); at most 2^32 values per label",
@@ -43,7 +47,10 @@ RULE = (
     "operation sequences (8-30 ops) over 1-5 holes of one DrillholeGroup, format version 2.0 or 2.1: add hole (surveys 1-4 rows or "
     "none), add data to a new or existing depth group (names d0-d3 shared between holes, depth lengths from {0,1,1,2,2,3,5}, about one sample in eight is NaN, "
     "values shorter than the depths are padded, 40 % of the cases hand in float32 arrays), set values / depths / surveys (shorter and longer), rename, remove data / group / hole "
-    "through the workspace or the parent, explicit empty group, re-open; non-trivial = some deletion shifted a later row"
+    "through the workspace or the parent, explicit empty group, object-associated data (no depth table), text and int32 values, "
+    "re-saving a stored hole, group.remove_children of a non-child, re-open, sessions with a single change, sessions of look-ups that "
+    "find nothing; 22 % of the cases continue with group.copy(parent=another workspace) (half of them with an attached comment) and 2-6 "
+    "operations on the copy while the source is re-read after each; non-trivial = some deletion shifted a later row"
 )
 LEVEL_TEXT = (
     "Proved in Coq. Index level, for all sequences of update_array_attribute calls (any labels, holes, lengths incl. 0): the index "
@@ -714,6 +721,10 @@ class _Drv:
                 self.hole(op["h"]).add_data({f"d{op['name']}": spec})
             finally:
                 self.assign_new(op["h"], op)
+        elif k == "lookup":
+            import uuid as _uuid
+
+            g.get_concatenated_attributes(_uuid.uuid4())
         elif k == "save_hole":
             ws.save_entity(self.hole(op["h"]))
         elif k == "remove_via_group":
@@ -1129,7 +1140,9 @@ def _check_snapshot(led, sn, where, fails, readback=True):
     for recs, tag in ((sn["recs"], "attributes"),):
         ids = [r["id"] for r in recs]
         want = sorted(list(led.holes) + list(led.data) + list(led.pgs))
-        if sorted(ids) != want:
+        if sorted(ids) != want and getattr(led, "lookup_miss", False) and sorted(i for i in ids if i != UNKNOWN) == want:
+            add("lookup-miss-appends-empty-record", f"{tag}: an empty record was appended by a look-up that found nothing: {ids}")
+        elif sorted(ids) != want:
             extra = sorted(set(ids) - set(want))
             missing = sorted(set(want) - set(ids))
             dup = sorted({i for i in ids if ids.count(i) > 1})
@@ -1229,6 +1242,8 @@ def _walk(case, led, ops, steps, prefix, fails, stats, src_led=None):
         stp = steps[i]
         where = f"{prefix}step {i} {op['op']}"
         exp = led.expected_error(op)
+        if op["op"] == "lookup":
+            led.lookup_miss = True
         if "hard" in stp:
             k = op["op"]
             if stp["hard"] == "KeyError" and k in ("remove_data", "remove_pg", "remove_hole") and "Property:" in stp.get("msg", ""):
@@ -1240,13 +1255,11 @@ def _walk(case, led, ops, steps, prefix, fails, stats, src_led=None):
                 else:
                     key = "remove-keyerror"
             elif stp["hard"] == "KeyError" and k in ("reopen", "reopen_lookups") and "'ID'" in stp.get("msg", "") and getattr(led, "lookup_miss", False):
-                key = "lookup-miss-placeholder-persisted"
+                key = "lookup-miss-appends-empty-record"
             else:
                 key = "operation-crashed:" + stp["hard"]
             fails.append({"key": key, "what": f"{where} raised {stp['hard']}: {stp.get('msg')}"})
             return False
-        if op["op"] == "lookup":
-            led.lookup_miss = True
         got = stp.get("soft")
         if got != exp:
             if got is not None and exp is None and op["op"] == "add_data" and "already present" in stp.get("msg", "") and "DEPTH" in stp.get("msg", ""):
